@@ -1,15 +1,100 @@
 /-
   C10 — RFC 3339 output is conformant and input acceptance is exact.
-  (stage 1: model + specification + correspondence; the property theorems follow)
+  Property statements only.  Helper lemmas: Proofs/RenderScanL.lean (decimal render/scan library) and
+  Proofs/Rfc3339L.lean, on top of the proved calendar (C01), timestamps (C02), zone-aware values (C04)
+  and field resolution lemmas (C14).
+
+  Vocabulary (Spec/Rfc3339Spec.lean, independent of chrono's scanners):
+    `Matches s f`   the byte string `s` is an RFC 3339 `date-time` (4DIGIT "-" 2DIGIT "-" 2DIGIT, `T`/`t`/
+                    space, 2DIGIT ":" 2DIGIT ":" 2DIGIT, optional "." 1*DIGIT, then `Z`/`z` or a sign — `+`,
+                    `-`, U+2212 — 2DIGIT ":" 2DIGIT) showing the fields `f`;
+    `Valid f`       existing date, hour < 24, minute < 60, second ≤ 60, offset within ±23:59;
+    `Denotes f v`   `v` is the well-formed zone-aware value with the offset shown whose instant is the wall
+                    clock shown minus that offset (fraction digits beyond the ninth dropped, second 60 = the
+                    leap-second representation after second 59).
+  Code: `Rfc3339.parse_from_rfc3339` = `DateTime::parse_from_rfc3339`, `Rfc3339.to_rfc3339_opts` =
+  `DateTime::to_rfc3339_opts`, `Rfc3339.to_rfc3339` = `DateTime::to_rfc3339` (Model/Rfc3339.lean).
 -/
-import Chrono.Model.Rfc3339
-import Chrono.Spec.Rfc3339Spec
-import Chrono.Proofs.RenderScanL
+import Chrono.Proofs.Rfc3339L
 
 namespace Chrono.Props.C10
-open Chrono Chrono.M Chrono.Spec Chrono.Spec.Rfc3339
+open Chrono Chrono.M Chrono.M.Rfc3339 Chrono.Spec Chrono.Spec.Rfc3339 Chrono.Proofs.Rfc3339
 
 /-- the offset bound re-extracted from `parse_rfc3339` is ±23:59 -/
 theorem offset_bound_ok : Extracted.MAX_RFC3339_OFFSET = (23 * 60 + 59) * 60 := by decide
+
+/-! ### The strict reader accepts exactly the grammar with valid fields -/
+
+/-- **reader_sound.**  Whatever `parse_from_rfc3339` accepts matches the grammar, shows valid fields,
+and the value returned is the one those fields denote. -/
+theorem reader_sound (s : List Nat) (v : Zoned) (h : parse_from_rfc3339 s = .ok (.ok v)) :
+    ∃ f, Matches s f ∧ Valid f ∧ Denotes f v := parse_sound s v h
+
+/-- **reader_complete.**  Every string of the grammar with valid fields is accepted (with every
+documented latitude: `T`, `t` or space; `Z` or `z`; any number of fraction digits; U+2212 as minus)
+and yields the denoted value. -/
+theorem reader_complete (s : List Nat) (f : Fields) (hm : Matches s f) (hv : Valid f) :
+    ∃ v, parse_from_rfc3339 s = .ok (.ok v) ∧ Denotes f v := parse_complete s f hm hv
+
+/-- **reader_total_rejects.**  Every other byte string is rejected with an error (never a panic). -/
+theorem reader_total_rejects (s : List Nat) (h : ¬ ∃ f, Matches s f ∧ Valid f) :
+    ∃ e, parse_from_rfc3339 s = .ok (.error e) := parse_rejects s h
+
+/-- acceptance is *exactly* grammar + validity -/
+theorem reader_accepts_iff (s : List Nat) :
+    (∃ v, parse_from_rfc3339 s = .ok (.ok v)) ↔ ∃ f, Matches s f ∧ Valid f := by
+  constructor
+  · rintro ⟨v, h⟩; obtain ⟨f, h1, h2, _⟩ := parse_sound s v h; exact ⟨f, h1, h2⟩
+  · rintro ⟨f, h1, h2⟩; obtain ⟨v, h, _⟩ := parse_complete s f h1 h2; exact ⟨v, h⟩
+
+/-- the denotation is a function: a well-formed value is determined by its offset, its instant
+(whole seconds) and its nanosecond field -/
+theorem denotes_unique (f : Fields) (a b : Zoned) (ha : Denotes f a) (hb : Denotes f b) : a = b := by
+  obtain ⟨⟨a1, _⟩, a2, a3, a4⟩ := ha
+  obtain ⟨⟨b1, _⟩, b2, b3, b4⟩ := hb
+  have hu : a.utc = b.utc := Chrono.Proofs.Ts.inst_inj a.utc b.utc a1 b1 (by rw [a3, b3]) (by rw [a4, b4])
+  have ho : a.off = b.off := by rw [a2, b2]
+  cases a; cases b
+  simp only [Zoned.mk.injEq]
+  exact ⟨hu, ho⟩
+
+/-- non-vacuity of `reader_complete` (hence of `reader_sound`, whose hypothesis is its conclusion): a
+string using every latitude at once — lower-case `t`, twelve fraction digits, U+2212, second 60 —
+`"2016-12-31t23:59:60.123456789999−08:00"` matches the grammar with valid fields, so it is accepted, and
+the value is the leap second 2017-01-01T07:59:60.123456789Z seen at −08:00 -/
+example :
+    let s := [50,48,49,54,45,49,50,45,51,49,116,50,51,58,53,57,58,54,48,46,49,50,51,52,53,54,55,56,57,57,57,57,
+              226,136,146,48,56,58,48,48]
+    let f : Fields := ⟨2016, 12, 31, 23, 59, 60, [49,50,51,52,53,54,55,56,57,57,57,57], false, true, 8, 0⟩
+    Matches s f ∧ Valid f ∧ offsetOf f = -28800 ∧ fracOf f = 1123456789 ∧
+      wallSecsOf f - offsetOf f = 1483257599 ∧
+      ∃ v, parse_from_rfc3339 s = .ok (.ok v) ∧ Denotes f v := by
+  intro s f
+  have hm : Matches s f :=
+    ⟨50, 48, 49, 54, 49, 50, 51, 49, 116, 50, 51, 53, 57, 54, 48, [46,49,50,51,52,53,54,55,56,57,57,57,57],
+      [226,136,146,48,56,58,48,48], by decide, by decide, by decide, by decide, by decide, by decide, by decide,
+      FracText.present _ (by decide) (by decide), OffsetText.minus 48 56 48 48 (by decide), rfl,
+      by decide, by decide, by decide, by decide, by decide, by decide⟩
+  have hv : Valid f := by decide
+  exact ⟨hm, hv, by decide, by decide, by decide, reader_complete s f hm hv⟩
+
+/-- non-vacuity of `reader_total_rejects`: `"2015-01-20T24:00:00Z"` is in the grammar but no reading of
+it has valid fields (hour 24), and the empty string is not in the grammar at all; both are rejected -/
+example :
+    (¬ ∃ f, Matches [50,48,49,53,45,48,49,45,50,48,84,50,52,58,48,48,58,48,48,90] f ∧ Valid f) ∧
+    (¬ ∃ f, Matches [] f ∧ Valid f) ∧
+    (∃ e, parse_from_rfc3339 [50,48,49,53,45,48,49,45,50,48,84,50,52,58,48,48,58,48,48,90] = .ok (.error e)) := by
+  have h1 : ¬ ∃ f, Matches [50,48,49,53,45,48,49,45,50,48,84,50,52,58,48,48,58,48,48,90] f ∧ Valid f := by
+    rintro ⟨f, ⟨y1, y2, y3, y4, mo1, mo2, d1, d2, sep, h1, h2, mi1, mi2, s1, s2, fr, off, _, _, _, _, _, _, _, _, _,
+      heq, _, _, _, eh, _, _⟩, hv⟩
+    simp only [List.cons_append, List.nil_append, List.cons.injEq] at heq
+    obtain ⟨_, _, _, _, _, _, _, _, _, _, _, rfl, rfl, _⟩ := heq
+    have : f.hour < 24 := hv.2.1
+    rw [eh] at this
+    revert this; decide
+  refine ⟨h1, ?_, reader_total_rejects _ h1⟩
+  rintro ⟨f, ⟨y1, y2, y3, y4, mo1, mo2, d1, d2, sep, h1, h2, mi1, mi2, s1, s2, fr, off, _, _, _, _, _, _, _, _, _,
+    heq, _⟩, _⟩
+  simp at heq
 
 end Chrono.Props.C10
